@@ -159,3 +159,57 @@ func TestVerifC10Grid(t *testing.T) {
 		vf10Run(rt, st, "C10")
 	})
 }
+
+// Directed regression cases for the classes recorded in known_findings.json.
+func TestVerifC10Directed(t *testing.T) {
+	st := vfNewStats(t, "C10")
+	// (1) fixed: server selects the second classical share of a Firefox parrot
+	for _, p := range []ClientHelloID{HelloFirefox_63, HelloFirefox_102, HelloFirefox_120} {
+		prep, err := vfPrepareClient(vfClientSrc{Kind: "parrot", Name: p.Str(), ID: p}, "directed.example", 1, nil)
+		if err != nil {
+			st.Violation(t, "directed %s: %v", p.Str(), err)
+		}
+		st.Eval()
+		if !vfContains16(prep.Offer.Shares, 0x0017) || prep.Offer.Shares[0] == 0x0017 {
+			continue // spec changed: no longer a second-share case
+		}
+		scfg := vfServerConfig("ecdsa", "directed.example")
+		scfg.CurvePreferences = []CurveID{CurveP256}
+		pair := &vfPair{CP: prep.CP, SP: prep.SP, Cli: prep.UC, Srv: Server(prep.SP, scfg)}
+		cerr, serr := pair.Handshake()
+		if cerr != nil || serr != nil {
+			st.KnownOrViolation(t, "C10:server-selects-non-first-classical-share", "directed %s vs CurvePreferences=[P256]: client err=%v server err=%v", p.Str(), cerr, serr)
+		} else if err := pair.Echo([]byte("a"), []byte("b")); err != nil {
+			st.Violation(t, "directed %s: echo %v", p.Str(), err)
+		}
+		st.NonTrivial("directed-second-share:" + p.Str())
+		pair.Close()
+	}
+	// (2) a randomized spec listing the hybrid group without a share, against a default server
+	for i := 0; i < 400; i++ {
+		var seed PRNGSeed
+		seed[0], seed[1] = byte(i), byte(i>>8)
+		id := HelloRandomized
+		id.Seed = &seed
+		w := DefaultWeights
+		w.TLSVersMax_Set_VersionTLS13 = 1
+		id.Weights = &w
+		prep, err := vfPrepareClient(vfClientSrc{Kind: "randomized", Name: "directed", ID: id}, "directed.example", 1, nil)
+		if err != nil {
+			st.Violation(t, "directed randomized %d: %v", i, err)
+		}
+		if !vfContains16(prep.Offer.Groups, vfGroupX25519MLKEM768) || vfContains16(prep.Offer.Shares, vfGroupX25519MLKEM768) {
+			continue
+		}
+		st.Eval()
+		scfg := vfServerConfig("ecdsa", "directed.example")
+		pair := &vfPair{CP: prep.CP, SP: prep.SP, Cli: prep.UC, Srv: Server(prep.SP, scfg)}
+		cerr, serr := pair.Handshake()
+		if cerr != nil || serr != nil {
+			st.KnownOrViolation(t, "C10:hybrid-group-listed-without-share", "directed randomized seed %d vs default server: client err=%v server err=%v", i, cerr, serr)
+		}
+		st.NonTrivial("directed-hybrid-without-share")
+		pair.Close()
+		break
+	}
+}
